@@ -29,7 +29,7 @@ Requirements for each change:
 
 Environment (offline sandbox, no network). In EVERY shell call first run:
   export GOFLAGS=-mod=mod GOPROXY=off GOSUMDB=off GOTOOLCHAIN=local PATH=/root/go/pkg/mod/golang.org/toolchain@v0.0.1-go1.25.0.linux-amd64/bin:\$PATH
-Use 'git -C $wt stash' / 'git -C $wt checkout -- .' to switch between changed and clean trees; do not commit.
+To switch between changed and clean trees save your change with 'git -C $wt diff > /tmp/mut/$prop/p.diff; git -C $wt checkout -- .' and restore it with 'git -C $wt apply /tmp/mut/$prop/p.diff'. Do NOT use 'git stash' (the stash is shared by all worktrees of the repository and other agents work in sibling worktrees); do not commit.
 
 Deliverables - for each change, in directory /tmp/mut/$prop/DELIVER/<L>/ with <L> = $(echo $letters | sed 's/ / and /g'):
   patch.diff     - 'git diff' of the library change only (must apply with 'git apply' to a clean checkout of HEAD; do NOT include the demo test)
